@@ -130,6 +130,22 @@ func init() {
 		"vByte": func(e *Engine, caller *frame, fn *ssa.Function, args []Value) Value {
 			return e.input(concreteStr(e, args[0], "input name"), "u8", BVSort(8)).t
 		},
+		"vInt32": func(e *Engine, caller *frame, fn *ssa.Function, args []Value) Value {
+			return e.input(concreteStr(e, args[0], "input name"), "i32", BVSort(32)).t
+		},
+		"vExactInt": func(e *Engine, caller *frame, fn *ssa.Function, args []Value) Value {
+			x := args[0].(*Term)
+			if x.Op == OSBVToFP && x.Args[0].Sort.W == 64 {
+				return Tuple{x.Args[0], e.tt.True}
+			}
+			if x.Op == OSBVToFP {
+				return Tuple{e.tt.SExt(x.Args[0], 64), e.tt.True}
+			}
+			tt := e.tt
+			inR := tt.And(tt.FLt(tt.F64Const(-9.2e18), x), tt.FLt(x, tt.F64Const(9.2e18)))
+			i := e.f2i(x, 64)
+			return Tuple{tt.Ite(inR, i, tt.IntConst(0, 64)), tt.And(inR, tt.FEq(tt.SBVToFP(i, F64Sort), x))}
+		},
 		"vRune": func(e *Engine, caller *frame, fn *ssa.Function, args []Value) Value {
 			return e.input(concreteStr(e, args[0], "input name"), "i32", BVSort(32)).t
 		},
@@ -474,6 +490,17 @@ func init() {
 				if s, ok := e.nativeFormat("%v", va); ok {
 					// fmt.Sprint(x) == Sprintf("%v", x) for a single operand
 					return Str{s: s}
+				}
+			}
+			// a symbolic number: the digits are strconv's business; hand back an opaque 3-byte string
+			if len(va) == 1 {
+				if itf, ok := va[0].(Iface); ok && itf.T != nil {
+					if t, ok := itf.V.(*Term); ok && isFP(t.Sort) {
+						e.envCtr++
+						in := e.inputBytes(fmt.Sprintf("env.fmt.Sprint.%d", e.envCtr), 3)
+						e.noteStub("fmt.Sprint(symbolic float) -> opaque 3-byte string")
+						return e.mkStr(in.bs)
+					}
 				}
 			}
 			e.unsupported("fmt.Sprint with symbolic operands")
